@@ -250,6 +250,7 @@ def run(ctx):
             where = out.node
     ctx.check("C04.5", not probs, fi, where, "PRBS: unsupported order", "order not in taps -> ValueError before the loop", "; ".join(probs[:3]))
     # ---------------- per order
+    reg_var = None
     for n in sorted(DOCUMENTED):
         if n not in table:
             continue
@@ -273,6 +274,7 @@ def run(ctx):
             continue
         state = loops[0]
         var = state[1].split("@")[0]
+        reg_var = var
         nxt = None
         for f, stmt, name, val, conds, depth in it.assign_log:
             if depth == 0 and name == var and in_loop(stmt):
@@ -362,9 +364,19 @@ def run(ctx):
         else:
             ctx.holds("C04.4", fi, loop, "PRBS loop: no early exit", "every iteration emits one bit and updates the register")
         top = loop.body
+
+        def flat_targets(s_):
+            out = []
+            for t_ in (s_.targets if isinstance(s_, ast.Assign) else [s_.target] if isinstance(s_, (ast.AugAssign, ast.AnnAssign)) else []):
+                out.extend(t_.elts if isinstance(t_, (ast.Tuple, ast.List)) else [t_])
+            return out
         upd_top = [s_ for s_ in top if isinstance(s_, ast.Assign) and isinstance(s_.targets[0], ast.Name) and any(isinstance(x, ast.Name) and x.id == s_.targets[0].id for x in ast.walk(s_.value)) and "<<" in src_of(s_.value) or (isinstance(s_, ast.Assign) and isinstance(s_.targets[0], ast.Name) and ">>" in src_of(s_.value) and "|" in src_of(s_.value))]
-        out_top = [s_ for s_ in top if isinstance(s_, ast.Assign) and isinstance(s_.targets[0], ast.Subscript)]
-        ok_struct = len(out_top) == 1 and len(upd_top) >= 1
+        if reg_var is not None:
+            # the register is known by its role (the loop-carried variable the output bit depends on, C04.3): any spelling of its update
+            upd_top = [s_ for s_ in top if any(isinstance(t_, ast.Name) and t_.id == reg_var for t_ in flat_targets(s_))]
+        out_top = [s_ for s_ in top if any(isinstance(t_, ast.Subscript) for t_ in flat_targets(s_))]
+        out_sub = [t_ for s_ in out_top for t_ in flat_targets(s_) if isinstance(t_, ast.Subscript)]
+        ok_struct = len(out_sub) == 1 and len(upd_top) >= 1
         if isinstance(loop, ast.While):
             t = loop.test
             ok_test = isinstance(t, ast.Compare) and len(t.ops) == 1 and isinstance(t.ops[0], ast.Lt) and isinstance(t.left, ast.Name) and src_of(t.comparators[0]) == lenp
@@ -373,10 +385,12 @@ def run(ctx):
             all_incs = [s_ for s_ in ast.walk(loop) if isinstance(s_, (ast.AugAssign, ast.Assign)) and any(isinstance(x, ast.Name) and x.id == cnt and isinstance(x.ctx, ast.Store) for x in ast.walk(s_))]
             init = [s_ for s_ in fi.node.body if isinstance(s_, ast.Assign) and isinstance(s_.targets[0], ast.Name) and s_.targets[0].id == cnt and src_of(s_.value) == "0"]
             ok_cnt = ok_test and len(incs) == 1 and len(all_incs) == 1 and bool(init)
-            idx_ok = len(out_top) == 1 and src_of(out_top[0].targets[0].slice) == cnt
+            idx_ok = len(out_sub) == 1 and src_of(out_sub[0].slice) == cnt
         else:
-            ok_cnt = isinstance(loop.iter, ast.Call) and src_of(loop.iter.func) == "range" and len(loop.iter.args) == 1 and src_of(loop.iter.args[0]) == lenp
-            idx_ok = len(out_top) == 1 and src_of(out_top[0].targets[0].slice) == src_of(loop.target)
+            ra = loop.iter.args if isinstance(loop.iter, ast.Call) and src_of(loop.iter.func) == "range" and not loop.iter.keywords else None
+            ok_cnt = ra is not None and ((len(ra) == 1 and src_of(ra[0]) == lenp) or (len(ra) == 2 and src_of(ra[0]) == "0" and src_of(ra[1]) == lenp)
+                                         or (len(ra) == 3 and src_of(ra[0]) == "0" and src_of(ra[1]) == lenp and src_of(ra[2]) == "1"))
+            idx_ok = len(out_sub) == 1 and src_of(out_sub[0].slice) == src_of(loop.target)
         ctx.check("C04.4", ok_struct and ok_cnt and idx_ok, fi, loop, "PRBS loop: counter runs 0..len-1, one unconditional output store and register update per iteration", "exactly `len` steps",
                   "the loop does not perform exactly one unconditional emit+update per counter value 0..len-1: the number of generator steps differs from the number of bits requested")
     # ---------------- C04.5 remaining guards
